@@ -2549,8 +2549,21 @@ def _extract_block(body_toks, frm, to, a, rep):
                 k += 1
             endp = k
         ob = _next_sig(body_toks, endp)
-        if ob >= len(body_toks) or body_toks[ob].text != "{":
-            raise AnchorLost(f"block_arm {a['block_arm']!r}: the arm body is not a block")
+        if ob >= len(body_toks):
+            raise AnchorLost(f"block_arm {a['block_arm']!r}: no arm body")
+        if body_toks[ob].text != "{":
+            # an expression arm `PAT => EXPR,`: the body is the expression up to the comma (or the closing brace of the match)
+            k = ob
+            while k < len(body_toks):
+                tk = body_toks[k]
+                if tk.kind == PUNCT and tk.text in OPEN:
+                    k = match_close(body_toks, k) + 1; continue
+                if tk.kind == PUNCT and (tk.text == "," or tk.text in CLOSE):
+                    break
+                k += 1
+            rep.append(("R0", f"inline block: expression body of the match arm `{a['block_arm'][:60]}` wrapped as `{a['wrap']}`"))
+            arm_e = list(body_toks[ob:k])
+            return [T(PUNCT, "{"), T(WS, "\n")] + arm_e + [T(PUNCT, ";"), T(WS, "\n"), T(PUNCT, "}")]
         cb = match_close(body_toks, ob)
         rep.append(("R0", f"inline block: body of the match arm `{a['block_arm'][:60]}` wrapped as `{a['wrap']}`"))
         tail = a.get("tail", "")
